@@ -753,6 +753,15 @@ def outerVal : Val := .adt 0
   [.con [(0, .con [(0, .leaf), (1, .adt 0 [.gc 1])]), (0, .con [(0, .leaf), (1, .adt 1 [.leaf])])],
    .con [(0, .weak 2)], .leaf, .adt 0 [.gc 3]]
 
+/-- `struct Node<'gc> { value: u32, #[collect(require_static)] token: Token, next: Option<Gc<'gc, Self>> }` -/
+def selfNode : Decl := strct [[.mode .noDrop]] 1 0 false .named
+  [fld .leaf, sfld (.opaque true), fld (.con .option [.gc])]
+/-- `enum Tree<'gc> { Empty, Leaf(#[collect(require_static)] Token, u32), Branch { #[collect(require_static)]
+token: Token, children: Vec<Gc<'gc, Self>> } }` -/
+def selfTree : Decl := .mk true [[.mode .noDrop]] 1 0 false
+  [.mk .unit [] [], .mk .tuple [] [sfld (.opaque true), fld .leaf],
+   .mk .named [] [sfld (.opaque true), fld (.con .vec [.gc])]]
+
 end Examples
 
 end GcArena.Derive
